@@ -14,6 +14,19 @@ package main
 // one write(2) per record, so whatever the child wrote before it ended is seen by the driver.
 // The driver decides nothing: it reports out/status/pv/nrec/rec per cell, TLC (TermTrace.tla)
 // compares that with the specification.
+//
+// Call sites (Term.tla Sites): a cell whose `from` is not "top" is issued from inside the
+// production of another record - from the Write of a wrapper around the recording writer
+// (termNestWriter) or from the String / MarshalText / MarshalJSON / LogValue method of a value
+// (termStringer, termTextM, termValuer); the markers and the recover sit around the nested call.
+//
+// Ways of starting the process (Term.tla Starts): the driver starts its children with its own
+// executable name and its own -test.* arguments, so the signs of the driver are the signs of the
+// child; the child compares the signs of its argv (taken when the process started) with the
+// cell's `start`.
+//
+// "hang": a child that is alive inside a call while its log does not grow is killed after a
+// time limit and the call is reported as out = "hang" (termRunBatch).
 
 import (
 	"bytes"
@@ -31,6 +44,7 @@ import (
 	"strconv"
 	"strings"
 	"sync"
+	"sync/atomic"
 	"time"
 
 	"github.com/hedzr/is"
@@ -54,8 +68,10 @@ type termCell struct {
 	Fmt     string `json:"fmt"`
 	Base    string `json:"base"`
 	Inp     string `json:"inp"`
-	Dst     string `json:"dst"`  // destination class (Term.tla DstCfg)
-	Size    int    `json:"size"` // 0 = short message of the input class, else its exact length in bytes
+	Dst     string `json:"dst"`   // destination class (Term.tla DstCfg)
+	Size    int    `json:"size"`  // 0 = short message of the input class, else its exact length in bytes
+	Start   string `json:"start"` // way the process was started (Term.tla Starts)
+	From    string `json:"from"`  // call site (Term.tla Sites)
 }
 
 type termCustom struct {
@@ -67,6 +83,8 @@ type termCustom struct {
 type termPlan struct {
 	Seed    int          `json:"seed"`
 	Par     int          `json:"par"`
+	Start   string       `json:"start"`  // way this driver (and so its children) must have been started
+	HangS   int          `json:"hang_s"` // seconds without progress inside a call that make a "hang"
 	Customs []termCustom `json:"customs"`
 	Batches [][]termCell `json:"batches"`
 }
@@ -79,7 +97,7 @@ type termBatch struct {
 
 // one line of a child's log
 type termLine struct {
-	T       string `json:"t"` // B begin, W write, E end
+	T       string `json:"t"` // B begin, W write, E end, X the outer call of a nested cell is over (Out: ret/panic)
 	ID      int    `json:"id"`
 	W       string `json:"w,omitempty"` // "o" normal, "e" error destination, "do"/"de" package defaults
 	P       string `json:"p,omitempty"` // payload, base64
@@ -89,6 +107,7 @@ type termLine struct {
 	Pv      string `json:"pv,omitempty"`
 	Pvs     string `json:"pvs,omitempty"`
 	Testing bool   `json:"testing,omitempty"`
+	St      string `json:"st,omitempty"` // E: the signs of the child's own argv at start-up (Term.tla Starts)
 }
 
 // observation of one cell, as validated by TermTrace.tla
@@ -102,6 +121,115 @@ type termObs struct {
 	Batch  int    `json:"batch"`
 	Pos    int    `json:"pos"` // position inside its process (history length before the call)
 	Note   string `json:"note,omitempty"`
+	Stall  int    `json:"stall_ms,omitempty"` // out = "hang": how long the log had not grown when the child was killed
+	// nested cells: how the OUTER call (severity Always / Info) ended: "ret", "panic" (recovered around it),
+	// "exit" (the process ended after the nested call had returned); "none": top-level cell, or the nested
+	// call itself ended the process / got stuck
+	Oout string `json:"oout"`
+}
+
+// termStartOf names the signs of a go test binary an argument vector carries (Term.tla Starts).
+func termStartOf(args []string) string {
+	name := len(args) > 0 && strings.HasSuffix(args[0], ".test")
+	arg := false
+	for _, a := range args[min(1, len(args)):] {
+		if strings.HasPrefix(a, "-test.") {
+			arg = true
+		}
+	}
+	switch {
+	case name && arg:
+		return "gotest"
+	case name:
+		return "nameOnly"
+	case arg:
+		return "argOnly"
+	}
+	return "prod"
+}
+
+// the signs when the process started (the child replaces os.Args later)
+var termStartAtInit = termStartOf(os.Args)
+
+// ------------------------------------------------------------------------------------------
+// call sites: where the cell's call is issued from
+
+// termSite issues the cell's call (between its markers) the first time the site is hit.
+type termSite struct {
+	fire  func()
+	fired bool
+}
+
+func (s *termSite) hit() {
+	if s.fired {
+		return
+	}
+	s.fired = true
+	s.fire()
+}
+
+// termNestWriter is a destination: the first record it is handed (the outer record) makes it
+// issue the cell's call from inside Write; that record goes to `outer` (a recorder the driver
+// does not count), everything else to `inner`.
+type termNestWriter struct {
+	site         *termSite
+	inner, outer io.Writer
+}
+
+func (w *termNestWriter) Write(p []byte) (int, error) {
+	if !w.site.fired {
+		w.site.hit()
+		return w.outer.Write(p)
+	}
+	return w.inner.Write(p)
+}
+
+type termStringer struct{ site *termSite }
+
+func (v termStringer) String() string { v.site.hit(); return "stringer" }
+
+type termTextM struct{ site *termSite }
+
+func (v termTextM) MarshalText() ([]byte, error) { v.site.hit(); return []byte("textm"), nil }
+func (v termTextM) MarshalJSON() ([]byte, error) { v.site.hit(); return []byte(`"textm"`), nil }
+
+type termValuer struct{ site *termSite }
+
+func (v termValuer) LogValue() logslog.Value { v.site.hit(); return logslog.StringValue("valuer") }
+
+// termOuter builds the logger of the outer record for the sites that use ANOTHER logger and
+// returns the call that produces the outer record.  Called before the cell's flags are
+// installed (NewSlogHandler changes the global flags).
+func termOuter(lg *termLog, c termCell, site *termSite) (func(), error) {
+	ol := slog.New(fmt.Sprintf("c12-outer-%d", c.ID))
+	oe := ol.Root()
+	xo, xe := &termRec{lg, "xo"}, &termRec{lg, "xe"}
+	oe.SetWriter(xo)
+	oe.SetErrorWriter(xe)
+	switch c.Fmt {
+	case "json":
+		oe.SetJSONMode(true)
+	case "color":
+		oe.SetColorMode(true)
+	default:
+		oe.SetColorMode(false)
+	}
+	oe.SetLevel(slog.InfoLevel)
+	msg := fmt.Sprintf("outer record of cell %d", c.ID)
+	switch c.From {
+	case "writeOther":
+		oe.SetWriter(&termNestWriter{site: site, inner: xo, outer: xo})
+		return func() { ol.Info(msg, "n", c.ID) }, nil
+	case "string":
+		return func() { ol.Info(msg, "n", c.ID, "v", termStringer{site}) }, nil
+	case "marshalText":
+		return func() { ol.Info(msg, "n", c.ID, "v", termTextM{site}) }, nil
+	case "logValue":
+		h := slog.NewSlogHandler(ol, &slog.HandlerOptions{NoColor: c.Fmt != "color", JSON: c.Fmt == "json", NoSource: true, Level: slog.InfoLevel})
+		sl := logslog.New(h)
+		return func() { sl.Info(msg, "n", c.ID, "v", termValuer{site}) }, nil
+	}
+	return nil, fmt.Errorf("unknown call site %q", c.From)
 }
 
 // ------------------------------------------------------------------------------------------
@@ -304,8 +432,15 @@ type termCtxKey int
 
 func (k termCtxKey) String() string { return "ck" + strconv.Itoa(int(k)) }
 
-// termPrepare configures the process and a fresh logger as the cell says and returns the call.
-func termPrepare(lg *termLog, c termCell, msg string) (call func(), err error) {
+// termPrepare configures the process and a fresh logger as the cell says and returns the call,
+// and for a nested cell the call that produces the outer record (which hits `site`).
+func termPrepare(lg *termLog, c termCell, msg string, site *termSite) (call func(), outer func(), err error) {
+	nested := c.From != "" && c.From != "top"
+	if nested && c.From != "writeSame" {
+		if outer, err = termOuter(lg, c, site); err != nil {
+			return nil, nil, err
+		}
+	}
 	f := termBaseFlags(c.Base)
 	if c.Ni {
 		f |= slog.LnoInterrupt
@@ -346,12 +481,13 @@ func termPrepare(lg *termLog, c termCell, msg string) (call func(), err error) {
 	root := slog.New(fmt.Sprintf("c12-%d", c.ID)) // what a user holds: the Logger returned by New
 	setup(root.Root())
 	var target slog.Logger = root
+	targetEntry := root.Root()
 	switch c.Recv {
 	case "root":
 	case "child":
 		kid := root.New("kid")
 		setup(kid)
-		target = kid
+		target, targetEntry = kid, kid
 	case "pkgimp":
 		slog.SetDefault(root)
 		slog.SetLevel(slog.Level(c.L))
@@ -359,10 +495,25 @@ func termPrepare(lg *termLog, c termCell, msg string) (call func(), err error) {
 		slog.SetDefault(root.Root())
 		slog.SetLevel(slog.Level(c.L))
 	default:
-		return nil, fmt.Errorf("unknown receiver kind %q", c.Recv)
+		return nil, nil, fmt.Errorf("unknown receiver kind %q", c.Recv)
 	}
 	if err != nil {
-		return nil, err
+		return nil, nil, err
+	}
+	pkg := c.Recv == "pkgimp" || c.Recv == "pkgentry"
+	if c.From == "writeSame" {
+		// the outer record is one of the SAME logger: severity Always (normal device), handed to a
+		// wrapper around the recording writer of the default destination class
+		if c.Dst != "rec" && c.Dst != "" {
+			return nil, nil, fmt.Errorf("call site writeSame needs the default destination class, not %q", c.Dst)
+		}
+		targetEntry.SetWriter(&termNestWriter{site: site, inner: &termRec{lg, "o"}, outer: &termRec{lg, "xo"}})
+		om := fmt.Sprintf("outer record of cell %d", c.ID)
+		if pkg {
+			outer = func() { slog.Print(om) }
+		} else {
+			outer = func() { target.Print(om) }
+		}
 	}
 	// SetLevel(Debug/Trace) switches the process-wide debug/trace modes on; the model has them off
 	is.SetDebugMode(false)
@@ -373,30 +524,29 @@ func termPrepare(lg *termLog, c termCell, msg string) (call func(), err error) {
 		ctx = nil
 	}
 	args := termArgs(c)
-	pkg := c.Recv == "pkgimp" || c.Recv == "pkgentry"
 	switch {
 	case pkg:
 		fn, ok := termPkgCalls[c.Ep]
 		if !ok {
-			return nil, fmt.Errorf("no package-level entry point %q", c.Ep)
+			return nil, nil, fmt.Errorf("no package-level entry point %q", c.Ep)
 		}
-		return func() { fn(ctx, msg, args...) }, nil
+		return func() { fn(ctx, msg, args...) }, outer, nil
 	case c.Ep == "LogAttrs":
-		return func() { target.LogAttrs(ctx, slog.Level(c.R), msg, args...) }, nil
+		return func() { target.LogAttrs(ctx, slog.Level(c.R), msg, args...) }, outer, nil
 	case c.Ep == "Logit":
-		return func() { target.Logit(ctx, slog.Level(c.R), msg, args...) }, nil
+		return func() { target.Logit(ctx, slog.Level(c.R), msg, args...) }, outer, nil
 	case c.Ep == "Log":
 		sl, ok := termStdLevel[c.R]
 		if !ok {
-			return nil, fmt.Errorf("Log: severity %d is not a standard log/slog level", c.R)
+			return nil, nil, fmt.Errorf("Log: severity %d is not a standard log/slog level", c.R)
 		}
-		return func() { target.Log(ctx, sl, msg, args...) }, nil
+		return func() { target.Log(ctx, sl, msg, args...) }, outer, nil
 	}
 	fn, ok := termVerbCalls[c.Ep]
 	if !ok {
-		return nil, fmt.Errorf("no entry point %q", c.Ep)
+		return nil, nil, fmt.Errorf("no entry point %q", c.Ep)
 	}
-	return func() { fn(target, ctx, msg, args...) }, nil
+	return func() { fn(target, ctx, msg, args...) }, outer, nil
 }
 
 // termDestinations gives the logger the writer set of the cell's destination class (Term.tla
@@ -489,30 +639,57 @@ func termChildMain(args []string) int {
 		}
 	}
 	for _, c := range b.Cells {
+		if c.Start != "" && c.Start != termStartAtInit {
+			fmt.Fprintf(os.Stderr, "term-child: cell %d wants a process started as %q, this one was started as %q\n", c.ID, c.Start, termStartAtInit)
+			return 96
+		}
 		msg := termMsg(c, b.Seed)
 		lg.cur = c.ID
-		call, err := termPrepare(lg, c, msg)
+		site := &termSite{}
+		call, outer, err := termPrepare(lg, c, msg, site)
 		if err != nil {
 			fmt.Fprintln(os.Stderr, "term-child:", err)
 			return 96
 		}
-		lg.line(termLine{T: "B", ID: c.ID}) // write-ahead marker
-		out, pv, pvs := "ret", "", ""
-		func() {
-			defer func() {
-				if p := recover(); p != nil {
-					out = "panic"
-					if s, ok := p.(string); ok && s == msg {
-						pv = "msg"
-					} else {
-						pv = "other"
-						pvs = fmt.Sprintf("%T: %.200v", p, p)
+		run := func() { // the cell's call between its markers, a recover around it
+			lg.line(termLine{T: "B", ID: c.ID}) // write-ahead marker
+			out, pv, pvs := "ret", "", ""
+			func() {
+				defer func() {
+					if p := recover(); p != nil {
+						out = "panic"
+						if s, ok := p.(string); ok && s == msg {
+							pv = "msg"
+						} else {
+							pv = "other"
+							pvs = fmt.Sprintf("%T: %.200v", p, p)
+						}
 					}
-				}
+				}()
+				call()
 			}()
-			call()
+			lg.line(termLine{T: "E", ID: c.ID, Out: out, Pv: pv, Pvs: pvs, Testing: testing, St: termStartAtInit})
+		}
+		if outer == nil {
+			run()
+			continue
+		}
+		// nested: the outer record is produced here, the cell's call is issued from the site
+		site.fire = run
+		var op any
+		func() {
+			defer func() { op = recover() }()
+			outer()
 		}()
-		lg.line(termLine{T: "E", ID: c.ID, Out: out, Pv: pv, Pvs: pvs, Testing: testing})
+		if !site.fired {
+			fmt.Fprintf(os.Stderr, "term-child: cell %d: call site %q was not reached by the outer record (outer call panicked: %v)\n", c.ID, c.From, op)
+			return 96
+		}
+		if op != nil { // the outer call is one of another severity: the driver reports how it ended
+			lg.line(termLine{T: "X", ID: c.ID, Out: "panic", Pvs: fmt.Sprintf("%T: %.200v", op, op)})
+		} else {
+			lg.line(termLine{T: "X", ID: c.ID, Out: "ret"})
+		}
 	}
 	f.Close()
 	return 0
@@ -685,6 +862,10 @@ func termRunMain(args []string) int {
 	}
 	var plan termPlan
 	readJSON(args[0], &plan)
+	if plan.Start != "" && plan.Start != termStartAtInit {
+		fmt.Fprintf(os.Stderr, "term-run: the plan wants a process started as %q, this one was started as %q\n", plan.Start, termStartAtInit)
+		return 3
+	}
 	dir := filepath.Dir(args[1])
 	var testArgs []string
 	for _, a := range os.Args[1:] {
@@ -734,7 +915,7 @@ func termRunMain(args []string) int {
 		fmt.Fprintln(os.Stderr, "term-run: infrastructure:", firstErr)
 		return 3
 	}
-	fmt.Printf("{\"cells\":%d,\"spawns\":%d,\"testing\":%v}\n", out.n, spawns, is.InTesting())
+	fmt.Printf("{\"cells\":%d,\"spawns\":%d,\"testing\":%v,\"start\":%q,\"hangs\":%d}\n", out.n, spawns, is.InTesting(), termStartAtInit, atomic.LoadInt32(&termHangs))
 	return 0
 }
 
@@ -762,16 +943,14 @@ func termRunBatch(dir string, idx int, cells []termCell, plan *termPlan, testArg
 			return obs, spawns, err
 		}
 		go func() { done <- cmd.Wait() }()
-		var werr error
-		select {
-		case werr = <-done:
-		case <-time.After(120 * time.Second):
-			cmd.Process.Kill()
-			<-done
-			return obs, spawns, &termInfra{fmt.Sprintf("batch %d: child timed out", idx)}
+		werr, hung, ierr := termAwait(cmd, done, lf, plan.HangS)
+		if ierr != nil {
+			return obs, spawns, &termInfra{fmt.Sprintf("batch %d: %v: %s", idx, ierr, termTail(stderr.String()))}
 		}
 		code := 0
-		if werr != nil {
+		if hung != nil {
+			code = -1
+		} else if werr != nil {
 			var ee *exec.ExitError
 			if errors.As(werr, &ee) && ee.Exited() {
 				code = ee.ExitCode()
@@ -786,28 +965,50 @@ func termRunBatch(dir string, idx int, cells []termCell, plan *termPlan, testArg
 		if rerr != nil && code == 0 {
 			return obs, spawns, &termInfra{fmt.Sprintf("batch %d: %v", idx, rerr)}
 		}
-		began, ended, writes := map[int]bool{}, map[int]termLine{}, map[int][][]byte{}
+		began, ended, writes, outerEnd := map[int]bool{}, map[int]termLine{}, map[int][][]byte{}, map[int]termLine{}
 		for _, l := range lines {
 			switch l.T {
 			case "B":
 				began[l.ID] = true
 			case "E":
 				ended[l.ID] = l
+			case "X":
+				outerEnd[l.ID] = l
 			case "W":
 				p := l.raw
-				if began[l.ID] { // writes during setup do not belong to the call
+				if began[l.ID] && !strings.HasPrefix(l.W, "x") { // writes during setup do not belong to the call, nor does the outer record of a nested cell
 					writes[l.ID] = append(writes[l.ID], p)
 				}
 			}
 		}
 		died := -1
 		for k, c := range remaining {
-			o := termObs{termCell: c, Batch: idx, Pos: k}
+			o := termObs{termCell: c, Batch: idx, Pos: k, Oout: "none"}
 			if e, ok := ended[c.ID]; ok {
-				if e.Testing != c.Testing {
-					return obs, spawns, &termInfra{fmt.Sprintf("cell %d: process mode is testing=%v, the cell wants %v", c.ID, e.Testing, c.Testing)}
+				if e.Testing != c.Testing || (c.Start != "" && e.St != c.Start) {
+					return obs, spawns, &termInfra{fmt.Sprintf("cell %d: process started as %q, is.InTesting()=%v; the cell wants %q, testing=%v", c.ID, e.St, e.Testing, c.Start, c.Testing)}
 				}
 				o.Out, o.Pv, o.Note = e.Out, e.Pv, e.Pvs
+				if c.From != "" && c.From != "top" {
+					if x, ok := outerEnd[c.ID]; ok {
+						o.Oout = x.Out
+						if x.Out != "ret" {
+							o.Note = strings.TrimSpace(o.Note + " outer call: " + x.Pvs)
+						}
+					} else if hung == nil { // the nested call returned, then the process ended inside the outer call
+						o.Oout = "exit"
+						o.Note = strings.TrimSpace(o.Note + fmt.Sprintf(" outer call: the process ended with status %d; ", code) + termTail(stderr.String()))
+						died = k
+					} else {
+						return obs, spawns, &termInfra{fmt.Sprintf("batch %d: child got stuck in the outer call of cell %d, after the nested call had returned", idx, c.ID)}
+					}
+				}
+			} else if began[c.ID] && hung != nil {
+				if hung.cell != c.ID {
+					return obs, spawns, &termInfra{fmt.Sprintf("batch %d: child was stuck in cell %d, the log says cell %d is open", idx, hung.cell, c.ID)}
+				}
+				o.Out, o.Stall, o.Note = "hang", int(hung.stall/time.Millisecond), hung.note
+				died = k
 			} else if began[c.ID] {
 				o.Out, o.Status = "exit", code
 				if code != 253 {
@@ -835,6 +1036,140 @@ func termRunBatch(dir string, idx int, cells []termCell, plan *termPlan, testArg
 		os.Remove(lf)
 	}
 	return obs, spawns, nil
+}
+
+// ------------------------------------------------------------------------------------------
+// "does not terminate"
+
+type termHang struct {
+	cell  int           // the cell the child was inside
+	stall time.Duration // how long its log had not grown
+	note  string
+}
+
+// verdicts "hang" of this driver run so far
+var termHangs int32
+
+const (
+	termPoll      = 40 * time.Millisecond
+	termPollLate  = 250 * time.Millisecond  // a poll interval longer than this: the driver itself was not scheduled
+	termShortHang = 1500 * time.Millisecond // limit once two children of this run have been found stuck
+)
+
+// termProcStat returns the state letter and the CPU time (clock ticks, user + system) of a process.
+func termProcStat(pid int) (state string, ticks int64) {
+	b, err := os.ReadFile(fmt.Sprintf("/proc/%d/stat", pid))
+	if err != nil {
+		return "?", 0
+	}
+	k := bytes.LastIndexByte(b, ')')
+	f := strings.Fields(string(b[k+1:]))
+	if k < 0 || len(f) < 13 {
+		return "?", 0
+	}
+	u, _ := strconv.ParseInt(f[11], 10, 64)
+	v, _ := strconv.ParseInt(f[12], 10, 64)
+	return f[0], u + v
+}
+
+// termOpenCell reads a child's log: the cell that has begun and not ended (-1: none), and whether
+// a record of that call (not the outer record of a nested cell) is in the log already.
+func termOpenCell(lf string) (cell int, hasRec bool) {
+	lines, _ := termReadLog(lf)
+	cell = -1
+	for _, l := range lines {
+		switch l.T {
+		case "B":
+			cell, hasRec = l.ID, false
+		case "E":
+			if l.ID == cell {
+				cell, hasRec = -1, false
+			}
+		case "W":
+			if l.ID == cell && !strings.HasPrefix(l.W, "x") && len(l.raw) > 0 {
+				hasRec = true
+			}
+		}
+	}
+	return
+}
+
+// termAwait waits for the child.  The child is "stuck" when it is alive inside a call (a cell has
+// begun and not ended) and its log has not grown for hangS seconds - with the call's record
+// already in the log; without it, twice as long.  Only time during which this driver was being
+// scheduled itself counts (a poll interval that took longer than termPollLate is dropped: the
+// machine is starving, the child probably too), so a busy machine makes the wait longer, not the
+// verdict wrong.  After two verdicts in one run the limit for "record written, no progress" drops
+// to termShortHang: the tree has the defect, the remaining cells only have to be classified.
+// A child that has not begun any cell / is between two cells when ten times the limit is over is
+// an infrastructure problem (ierr), never a verdict.
+func termAwait(cmd *exec.Cmd, done chan error, lf string, hangS int) (werr error, hung *termHang, ierr error) {
+	limit := time.Duration(hangS) * time.Second
+	if limit <= 0 {
+		limit = 30 * time.Second
+	}
+	tick := time.NewTicker(termPoll)
+	defer tick.Stop()
+	var stall, counted, nextLook time.Duration
+	lastSize := int64(-1)
+	last := time.Now()
+	_, cpu0 := termProcStat(cmd.Process.Pid)
+	for {
+		select {
+		case werr = <-done:
+			return werr, nil, nil
+		case now := <-tick.C:
+			dt := now.Sub(last)
+			last = now
+			if dt > termPollLate {
+				continue
+			}
+			counted += dt
+			var size int64
+			if st, err := os.Stat(lf); err == nil {
+				size = st.Size()
+			}
+			if size != lastSize {
+				lastSize, stall, nextLook = size, 0, 0
+				_, cpu0 = termProcStat(cmd.Process.Pid)
+				continue
+			}
+			stall += dt
+			need := limit
+			if atomic.LoadInt32(&termHangs) >= 2 {
+				need = termShortHang
+			}
+			if stall >= need && stall >= nextLook {
+				nextLook = stall + time.Second
+				cell, hasRec := termOpenCell(lf)
+				if cell >= 0 && (hasRec && stall >= need || stall >= 2*limit) {
+					state, cpu1 := termProcStat(cmd.Process.Pid)
+					cmd.Process.Kill()
+					<-done
+					atomic.AddInt32(&termHangs, 1)
+					how := "idle"
+					if cpu1-cpu0 > int64(stall/time.Second)*50 { // more than half of one CPU (100 ticks/s)
+						how = "spinning"
+					}
+					rec := "the call's record is in the log"
+					if !hasRec {
+						rec = "no record of the call in the log"
+					}
+					return nil, &termHang{cell, stall, fmt.Sprintf("child alive inside the call, no progress for %.1f s (%s; process state %s, %d CPU ticks meanwhile, %s); killed",
+						stall.Seconds(), rec, state, cpu1-cpu0, how)}, nil
+				}
+			}
+			if counted >= 10*limit {
+				cell, _ := termOpenCell(lf)
+				cmd.Process.Kill()
+				<-done
+				if cell < 0 {
+					return nil, nil, fmt.Errorf("child neither began nor finished its work within %.0f s", counted.Seconds())
+				}
+				return nil, nil, fmt.Errorf("child timed out after %.0f s (inside cell %d, log still growing or limit not reached)", counted.Seconds(), cell)
+			}
+		}
+	}
 }
 
 // termProject turns the payloads written during the call into nrec / rec.
